@@ -100,6 +100,7 @@ def make_program(cfg):
             for i, op in enumerate(seq):
                 if op == 'flush':
                     tdc.flush_allreduce_buckets()
+                    world.point(('op', cycle, i))
                     continue
                 shape, dtype, role, avg, sym = op
                 name, mem = role_members(topo, role, rank)
@@ -110,6 +111,10 @@ def make_program(cfg):
                     t.clone(), average=avg, group=handles[name],
                     symmetric=sym)
                 pend.append((i, fut, mem, op))
+                # operation boundary: a completion (and its callbacks) may
+                # land between any two calls of the user
+                world.point(('op', cycle, i))
+            world.point(('pre-flush', cycle))
             tdc.flush_allreduce_buckets()
             for i, fut, mem, op in pend:
                 val = fut.wait() if isinstance(fut, Future) else fut
@@ -314,9 +319,21 @@ def run_cfg(part, item):
                 vs = orc(w)
             viols += [(k, f'[{sname}] {t}') for k, t in vs]
     else:
-        delivery = mode
-        res = explore.explore(n, prog, delivery=delivery, oracle=orc,
-                              outcome=outcome, max_states=20000)
+        if mode.startswith('fine'):
+            # completions may land between any two LINES of the
+            # communicator (they run on another thread in real backends):
+            # all schedules with <= d such deviations from lazy delivery
+            explore.FINE['files'] = ('kfac/distributed.py',)
+            try:
+                res = explore.explore_bounded(
+                    n, prog, bound=int(mode[4:]), delivery='free',
+                    oracle=orc, outcome=outcome, max_exec=40000,
+                    max_seconds=600)
+            finally:
+                explore.FINE['files'] = ()
+        else:
+            res = explore.explore(n, prog, delivery=mode, oracle=orc,
+                                  outcome=outcome, max_states=20000)
         part.count('executions', res.executions)
         part.count('states', res.states)
         part.count('transitions', res.transitions)
@@ -387,7 +404,7 @@ def main(run: core.Run):
             # rotated by the seed so that several seeds cover them all
             short = [s for s in seqs if len(s) <= 2]
             long_ = [s for s in seqs if len(s) == 3]
-            k = 12 if topo == 'w2' else 8
+            k = 16 if topo == 'w2' else 12
             long_ = long_[run.seed % k::k]
             seqs = short + long_
             run.notes.setdefault('quick_len3_stride', {})[topo] = k
@@ -412,6 +429,17 @@ def main(run: core.Run):
                 items.append(({'topo': topo, 'cap': cap, 'seq': seq,
                                'cycles': 2 if thorough and topo == 'w2'
                                else 1}, 'free'))
+    # fine-grained completion points (deviation-bounded)
+    for topo in ('w2',) + (('w3',) if thorough else ()):
+        seqs = list(sequences(small, 3))
+        if not thorough:
+            seqs = [s for s in seqs if len(s) <= 2] + \
+                [s for s in seqs if len(s) == 3][run.seed % 8::8]
+        for seq in seqs:
+            for cap in ((16, 10 ** 6) if thorough else (16,)):
+                items.append(({'topo': topo, 'cap': cap, 'seq': seq,
+                               'cycles': 2}, 'fine2' if thorough and
+                              len(seq) <= 2 else 'fine1'))
     if thorough:
         grid = [((2, 2), F32, 'row', True, False),
                 ((2, 2), F32, 'col', False, False),
@@ -425,7 +453,9 @@ def main(run: core.Run):
         'the real TorchDistributedCommunicator in a simulated world; '
         'mode fixed = 3 schedules (lowest-first eager, lazy+NaN poisoning, '
         'round-robin), mode free/eager = exhaustive interleavings incl. '
-        'completion times; non-trivial = program submits >=2 tensors')
+        'completion times at operation boundaries; mode fine<d> = all '
+        'schedules with <= d deviations where a completion may land between '
+        'any two LINES of kfac/distributed.py; non-trivial = program submits >=2 tensors')
     run.assumptions += [
         'simdist models per-group FIFO matching of gloo/NCCL; CPU tensors',
         'values are position-revealing integers (exact in f32/f64); '
